@@ -29,7 +29,7 @@ Emit ==
   IF Completed
   THEN Serialize(ToJson([segs |-> segs, kind |-> kind, limit |-> limit, openw |-> openw, pq0 |-> pq0,
                          steps |-> hist, crashes |-> crashes,
-                         final |-> [files |-> files, mem |-> mem, smeta |-> smeta, mmeta |-> mmeta, pq |-> pq],
+                         final |-> [files |-> files, mem |-> mem, sorted |-> sorted, smeta |-> smeta, mmeta |-> mmeta, pq |-> pq],
                          ref |-> ref,
                          ok |-> [consistent |-> Consistent, time |-> TimeExact, oldest |-> OldestFirst,
                                  idem |-> Idempotent]]) \o "\n",
